@@ -327,20 +327,43 @@ Proof. vm_compute. reflexivity. Qed.
 (* the sizes of the closed sets, for the record *)
 Definition cfg_sizes : list nat := map (fun c => count_cfg fuel0 (fst c) (snd c)) cfgs.
 
+Lemma cfg_checked_at : forall nn nc, In (nn, nc) cfgs -> check_cfg fuel0 nn nc = true.
+Proof.
+  intros nn nc H.
+  exact (proj1 (forallb_forall (fun c => check_cfg fuel0 (fst c) (snd c)) cfgs) cfgs_checked (nn, nc) H).
+Qed.
+
+Lemma cfg_invariant : forall fuel nn nc, check_cfg fuel nn nc = true ->
+  forall tr s h, exec fl_fixed (init_cfg nn nc) tr = Some (s, h) ->
+  pinv fl_fixed (s, mon_run (mon_init (nn + nc)) h) = true.
+Proof.
+  intros fuel nn nc Hc tr s h He.
+  exact (check_from_invariant (pstep fl_fixed) enc_pstate pstate_eqb pstate_eqb_sound labels3 (pinv fl_fixed)
+           (labels3_complete fl_fixed) fuel (p_init nn nc) Hc tr (s, mon_run (mon_init (nn + nc)) h)
+           (exec_pexec fl_fixed tr (init_cfg nn nc) (mon_init (nn + nc)) s h He)).
+Qed.
+
 Theorem all_runs_pass : forall nn nc, nn + nc <= 3 ->
   forall tr s h, exec fl_fixed (init_cfg nn nc) tr = Some (s, h) ->
     check_prefix (nn + nc) h = true /\
     (quiescent fl_fixed s = true -> check_history (nn + nc) h = true).
 Proof.
   intros nn nc Hn tr s h He.
-  pose proof cfgs_checked as Hc. rewrite forallb_forall in Hc.
-  specialize (Hc _ (cfgs_complete nn nc Hn)). cbn [fst snd] in Hc. unfold check_cfg in Hc.
-  pose proof (check_from_invariant (pstep fl_fixed) enc_pstate pstate_eqb pstate_eqb_sound labels3 (pinv fl_fixed)
-                (labels3_complete fl_fixed) fuel0 (p_init nn nc) Hc tr (s, mon_run (mon_init (nn + nc)) h)) as Hinv.
-  unfold p_init in Hinv. specialize (Hinv (exec_pexec _ _ _ _ _ _ He)).
+  pose proof (cfg_invariant fuel0 nn nc (cfg_checked_at nn nc (cfgs_complete nn nc Hn)) tr s h He) as Hinv.
   unfold pinv in Hinv. cbn [fst snd] in Hinv.
   apply andb_true_iff in Hinv. destruct Hinv as [Hinv Hq]. apply andb_true_iff in Hinv. destruct Hinv as [_ Hb].
   split.
   - unfold check_prefix. exact Hb.
   - intros Hqs. rewrite Hqs in Hq. unfold check_history. exact Hq.
+Qed.
+
+(* the same for any flag record that says what fl_fixed says (the form used by Properties.v with the generated flags) *)
+Lemma all_runs_pass_flags : forall fl (cleans : bool),
+  f_snapshot fl = true -> f_clear_writer fl = true -> cleans = true ->
+  forall nn nc, nn + nc <= 3 ->
+  forall tr s h, exec fl (init_cfg nn nc) tr = Some (s, h) ->
+    check_prefix (nn + nc) h = true /\
+    (quiescent fl s = true -> check_history (nn + nc) h = true).
+Proof.
+  intros [a b] cleans Ha Hb _. cbn in Ha, Hb. subst a b. exact all_runs_pass.
 Qed.
